@@ -324,6 +324,12 @@ func (s Stmt) String() string {
 // CmpVals applies op to two non-NULL values of the same kind.
 func CmpVals(a interface{}, op string, b interface{}) (bool, error) {
 	if a == nil || b == nil {
+		if op == "=" && (a != nil || b != nil) {
+			// equality between a value and NULL is never true (in SQL it is unknown,
+			// which filters and joins treat like false). NULL = NULL and every other
+			// operator on NULL stay outside the modelled domain.
+			return false, nil
+		}
 		return false, fmt.Errorf("model: comparison with NULL is outside the modelled domain")
 	}
 	var c int
